@@ -75,17 +75,30 @@ def trace_program(src: str, modname="__c01__"):
       except Exception:  # pylint: disable=broad-except
         pass
 
+  executed = set()
+
+  def tracer(frame, event, arg):
+    if frame.f_code.co_filename == "<c01>":
+      if event == "line":
+        executed.add(frame.f_lineno)
+      return tracer
+    return None
+
   old = sys.getprofile()
+  oldtrace = sys.gettrace()
   lim = sys.getrecursionlimit()
   sys.setrecursionlimit(400)
   sys.setprofile(prof)
+  sys.settrace(tracer)
   try:
     exec(code, g)   # pylint: disable=exec-used
   except BaseException as e:  # pylint: disable=broad-except
+    sys.settrace(oldtrace)
     sys.setprofile(old)
     sys.setrecursionlimit(lim)
     return {"ok": False, "error": f"{type(e).__name__}: {str(e)[:120]}"}
   finally:
+    sys.settrace(oldtrace)
     sys.setprofile(old)
     sys.setrecursionlimit(lim)
   globs = {}
@@ -101,4 +114,4 @@ def trace_program(src: str, modname="__c01__"):
                         a, shape(av, 0, modname)))
     except Exception:  # pylint: disable=broad-except
       continue
-  return {"ok": True, "globals": globs, "attrs": attrs, "returns": returns}
+  return {"ok": True, "globals": globs, "attrs": attrs, "returns": returns, "executed_lines": sorted(executed)}
